@@ -496,8 +496,9 @@ Proof.
   induction l as [|[code' c'] r IH]; cbn [tbl_all_sound_aux]; [discriminate|].
   destruct (tbl_all_sound_aux whole r c) eqn:E.
   - intros H; inversion H; subst. apply IH. reflexivity.
-  - destruct ((c =? c') && (tbl_rev whole code' =? c)) eqn:Ec; [|discriminate].
-    intros H; inversion H; subst. apply andb_true_iff in Ec as [_ Ec]. apply N.eqb_eq in Ec. exact Ec.
+  - destruct (c =? c'); [|discriminate].
+    destruct (tbl_rev whole code' =? c) eqn:Ec; [|discriminate].
+    intros H; inversion H; subst. apply N.eqb_eq in Ec. exact Ec.
 Qed.
 
 Lemma fromcmap_sound_inverse_lemma l c code : tbl_all_sound l c = Some code -> tbl_rev l code = c.
